@@ -30,6 +30,7 @@ pub fn generate(family: &str, cfg: &LensCfg) -> Vec<Vec<Op>> {
         // own through its *untraced* cell, i.e. the one destroyed by reference counting nested inside the
         // collector's dropping phase when #0 is garbage.
         "g3b" => g3(cfg, false, true),
+        "g4n" => g4n(cfg),
         other => panic!("unknown seed family {}", other),
     }
 }
@@ -112,6 +113,141 @@ fn g3(cfg: &LensCfg, small: bool, on_one: bool) -> Vec<Vec<Op>> {
                                                 out.push(h);
                                             }
                                         }
+                                        }
+                                        }
+                                    }
+                                }
+                            }
+                        }
+                    }
+                }
+            }
+        }
+    }
+    out
+}
+
+
+/// Family g4n (nested destruction): #0 = A, #1 = B form the garbage (A alone in a self-cycle, or A <-> B); #3 = Child is
+/// owned by A or B through the untraced cell or through the second traced cell; #2 = Leaf is owned by Child (cell 0 or the
+/// untraced cell). Child and Leaf each carry a finalizer script and a destructor script from the lens menus; Leaf (or
+/// Child) may hold a weak cell to A, B or Child. Finally the handles of A and B are dropped, in both orders.
+/// Destroying the cycle then destroys Child by reference counting *inside* the collector's dropping phase, and Child's
+/// callbacks destroy Leaf one level deeper (a finalizer run by a Cc::drop nested in the drop glue of a garbage object,
+/// a destructor nested in that finalizer, ...).
+fn g4n(cfg: &LensCfg) -> Vec<Vec<Op>> {
+    assert!(cfg.nvars >= 4 && cfg.nobj >= 4, "seed family g4n needs --v 4 --n 4");
+    let weak = has_code(cfg, Downgrade) && has_code(cfg, StoreWeak) && cfg.nw >= 1;
+    let fin_menu: Vec<u8> = if has_code(cfg, SetFin) { cfg.fin_menu.clone() } else { vec![0] };
+    let drop_menu: Vec<u8> = if has_code(cfg, SetDrop) { cfg.drop_menu.clone() } else { vec![0] };
+    let g_scripts = cfg.fin_menu.iter().any(|k| [10u8, 11, 12, 14, 15].contains(k)) || cfg.drop_menu.iter().any(|k| [3u8, 4, 5, 6].contains(k));
+    let mut out: Vec<Vec<Op>> = Vec::new();
+    // weak cell configurations: (holder: 2 = Leaf / 3 = Child, target)
+    let mut wconfs: Vec<Option<(u8, u8)>> = vec![None];
+    if weak {
+        wconfs.extend([Some((2u8, 0u8)), Some((2, 1)), Some((2, 3)), Some((3, 0)), Some((3, 1))]);
+    }
+    for two in [false, true] {
+        for owner in if two { vec![0u8, 1] } else { vec![0u8] } {
+            for via in [T as u8, 1u8] {
+                for leaf_cell in [0u8, T as u8] {
+                    for cfin in &fin_menu {
+                        for cdrop in &drop_menu {
+                            for lfin in &fin_menu {
+                                for ldrop in &drop_menu {
+                                    for wc in &wconfs {
+                                        if let Some((_, t)) = wc {
+                                            if *t == 1 && !two {
+                                                continue;
+                                            }
+                                        }
+                                        // an extra self-reference in the second traced cell of A or B keeps that member's count above
+                                        // zero while the other members' drop glue runs (the moment the nested callbacks look at it)
+                                        for extra in [None, Some(0u8), Some(1u8)] {
+                                        if let Some(x) = extra {
+                                            if (x == 1 && !two) || (via == 1 && owner == x) {
+                                                continue;
+                                            }
+                                        }
+                                        for g_on in if g_scripts { vec![false, true] } else { vec![false] } {
+                                            let mut h: Vec<Op> = vec![op(New, 0, 0, 0), op(New, 1, 0, 0)];
+                                            if let Some(x) = extra {
+                                                h.push(op(Dup, x, 3, 0));
+                                                h.push(op(Store, x, 1, 3));
+                                            }
+                                            if two {
+                                                h.push(op(Dup, 1, 3, 0));
+                                                h.push(op(Store, 0, 0, 3)); // A.c0 -> B
+                                                h.push(op(Dup, 0, 3, 0));
+                                                h.push(op(Store, 1, 0, 3)); // B.c0 -> A
+                                            } else {
+                                                h.push(op(Dup, 0, 3, 0));
+                                                h.push(op(Store, 0, 0, 3)); // A.c0 -> A
+                                            }
+                                            h.push(op(New, 2, 0, 0)); // #2 = Leaf in v2
+                                            if let Some((2, t)) = wc {
+                                                if *t != 3 {
+                                                    h.push(op(Downgrade, *t, 0, 0));
+                                                    h.push(op(StoreWeak, 2, 0, 0));
+                                                }
+                                            }
+                                            if *lfin != 0 {
+                                                h.push(op(SetFin, 2, *lfin, 0));
+                                            }
+                                            if *ldrop != 0 {
+                                                h.push(op(SetDrop, 2, *ldrop, 0));
+                                            }
+                                            h.push(op(New, 3, 0, 0)); // #3 = Child in v3
+                                            if let Some((2, 3)) = wc {
+                                                h.push(op(Downgrade, 3, 0, 0));
+                                                h.push(op(StoreWeak, 2, 0, 0));
+                                            }
+                                            if let Some((3, t)) = wc {
+                                                h.push(op(Downgrade, *t, 0, 0));
+                                                h.push(op(StoreWeak, 3, 0, 0));
+                                            }
+                                            if *cfin != 0 {
+                                                h.push(op(SetFin, 3, *cfin, 0));
+                                            }
+                                            if *cdrop != 0 {
+                                                h.push(op(SetDrop, 3, *cdrop, 0));
+                                            }
+                                            h.push(op(Store, 3, leaf_cell, 2)); // Child.cell <- Leaf (moved)
+                                            h.push(op(Store, owner, via, 3)); // owner.cell <- Child (moved)
+                                            if !two {
+                                                // B is not part of the garbage: it stays a live bystander held by v1, or G holds it
+                                            }
+                                            if g_on {
+                                                // a unique Cc in G for the scripts that read it: a fifth object would exceed the
+                                                // scope, so G gets a second handle of B when B is a bystander, else nothing
+                                                if !two {
+                                                    h.push(op(Dup, 1, 3, 0));
+                                                    h.push(op(PutG, 3, 0, 0));
+                                                } else {
+                                                    continue;
+                                                }
+                                            }
+                                            for rev in [false, true] {
+                                                let mut hh = h.clone();
+                                                if two {
+                                                    if rev {
+                                                        hh.push(op(Drop, 1, 0, 0));
+                                                        hh.push(op(Drop, 0, 0, 0));
+                                                    } else {
+                                                        hh.push(op(Drop, 0, 0, 0));
+                                                        hh.push(op(Drop, 1, 0, 0));
+                                                    }
+                                                } else {
+                                                    if rev {
+                                                        continue;
+                                                    }
+                                                    hh.push(op(Drop, 0, 0, 0));
+                                                    if g_on {
+                                                        hh.push(op(Drop, 1, 0, 0)); // G keeps the only Cc of B
+                                                    }
+                                                }
+                                                out.push(hh);
+                                            }
                                         }
                                         }
                                     }
